@@ -7,6 +7,7 @@
 use std::env;
 use std::process::exit;
 
+mod gen;
 mod c03;
 mod c05;
 mod c06;
